@@ -31,7 +31,8 @@ CONSTANTS NK,        \* set of <<n, k>> pairs (multisig public keys explored)
 VARIABLES n, k,      \* the k-of-n public key
           ms,        \* the multisignature: [nil, extra, nel, marks, sigs]
           honest,    \* ghost: only AddSignature with the position's own valid signature was used
-          hist
+          hist,
+          fin        \* simulation only: set by Finish so that one behaviour is emitted per trace
 
 vars == <<n, k, ms, honest>>
 View == vars
@@ -88,12 +89,13 @@ Init ==
   /\ \E p \in NK : n = p[1] /\ k = p[2]
   /\ ms = Fresh(n)
   /\ honest = TRUE
+  /\ fin = FALSE
   /\ hist = << [act |-> "New", i |-> n, s |-> k, acc |-> FALSE, st |-> Proj(n, k, Fresh(n))] >>
 
 Step(a, i, s, m, h) ==
   /\ ms' = m
   /\ honest' = h
-  /\ UNCHANGED <<n, k>>
+  /\ UNCHANGED <<n, k, fin>>
   /\ hist' = Append(hist, Rec(a, i, s, m))
 
 InsertAt(q, p, x) == SubSeq(q, 1, p - 1) \o <<x>> \o SubSeq(q, p, Len(q))
@@ -144,7 +146,7 @@ NilBits ==
 VerifyMember(i, s) ==
   /\ Len(hist) = 1
   /\ i \in 0..(n - 1)
-  /\ UNCHANGED vars
+  /\ UNCHANGED <<vars, fin>>
   /\ hist' = Append(hist, [act |-> "VerifyMember", i |-> i, s |-> s, acc |-> (s = i + 1), st |-> Proj(n, k, ms)])
 
 SigVals(i) == {0, i + 1, ((i + 1) % n) + 1}               \* invalid, own key, another member's key
@@ -158,7 +160,11 @@ Next ==
   \/ NilBits
   \/ \E i \in 0..(n - 1) : \E s \in 0..n : VerifyMember(i, s)
 
-Spec == Init /\ [][Next]_<<vars, hist>>
+\* simulation: TLC evaluates invariants on every generated successor, so emission is tied to a last step
+\* that has exactly one successor
+Finish == Len(hist) >= MaxLen /\ ~fin /\ fin' = TRUE /\ UNCHANGED <<vars, hist>>
+NextSim == Next \/ Finish
+Spec == Init /\ [][Next]_<<vars, hist, fin>>
 
 \* ------------------------------------------------------------------ invariants
 TypeOK == /\ ms.nil \in BOOLEAN /\ ms.extra \in Nat /\ ms.nel \in 0..MaxNel
@@ -176,6 +182,6 @@ NoForgery == Accept(n, k, ms) => Cardinality(Signers(ms)) >= k
 MarkedAllValid == Accept(n, k, ms) => \A i \in Marked(ms) : ms.sigs[Rank(ms, i)] = i + 1
 
 Emit == PrintT(<<"TRACE", ToJson(hist)>>)
-EmitAtEnd == Len(hist) < MaxLen \/ Emit
+EmitAtEnd == ~fin \/ Emit
 EmitEdge == PrintT(<<"EDGE", ToJson(hist')>>)
 =============================================================================
